@@ -7,6 +7,7 @@ import os
 import common
 import c01
 import refeval
+import refwalk
 import treegen
 from common import Stats
 
@@ -281,6 +282,58 @@ def xdev_worker(job):
     return st
 
 
+def removing_prune_worker(job):
+    """-prune on a directory that an action written after it removes (find ... -name cache -prune -exec rm -rf {} ;): nothing below
+    the pruned directory is evaluated - it is gone AND cut off - every sibling and every other subtree still is, in order, and the
+    run ends cleanly. With and without -xdev/-mount (on one file system they change nothing), with and without -sorted."""
+    k, nruns, seed = job
+    st = Stats()
+    rng = common.rng_for(seed, "C03rm", k)
+    base = common.mkscratch("C03r%d" % k)
+    try:
+        for t in range(nruns):
+            sb = os.path.join(base, "t%d" % t)
+            os.makedirs(sb)
+            nodes = gen_tree(rng, rng.choice([10, 20, 30]))
+            treegen.build(sb, nodes)
+            cands = [n.path for n in nodes if n.kind == "d" and n.path != "r" and any(m.path.startswith(n.path + "/") for m in nodes)
+                     and not any(0xDC80 <= ord(ch) <= 0xDCFF for ch in n.path) and not any(ch in n.path for ch in "*?[\\\n")]
+            if not cands:
+                common.force_rmtree(sb)
+                continue
+            victim = rng.choice(cands)
+            ents, w = refwalk.walk_list(["r"], "P", 0, None, False, True, sb)
+            want = [e.path for e in ents if e.path != victim and not e.path.startswith(victim + "/")]
+            opt = rng.choice([[], ["-xdev"], ["-xdev"], ["-mount"]])
+            srt = rng.random() < 0.7
+            rm = rng.choice([["-exec", "rm", "-rf", "{}", ";"], ["-execdir", "rm", "-rf", "{}", ";"], ["-exec", "rm", "-rf", "{}", ";", "-true"]])
+            args = ["r"] + opt + (["-sorted"] if srt else []) + ["(", "-path", victim, "-prune"] + rm + [")", "-o", "-print0"]
+            rc, out, err, to = common.run_cmd([common.FIND] + args, cwd=sb, env=common.clean_env(), timeout=60)
+            got = [os.fsdecode(x) for x in out.split(b"\0")[:-1]]
+            st.inc("evaluations")
+            st.inc("runs_in_which_the_pruned_directory_is_removed_by_a_later_action")
+            if opt:
+                st.inc("runs_with_xdev")
+            st.add("distinct", (tuple(args), tuple(want)))
+            rp = {"tree": [n.to_json() for n in nodes], "args": ["find"] + args}
+            problems = []
+            if to or rc in (101, 134, -6, -11):
+                problems.append("crashed or hung: %r %r" % (rc, err[-200:]))
+            else:
+                if (got != want) if srt else (sorted(got) != sorted(want)):
+                    problems.append("evaluated %r, expected %r" % ([g for g in got if g not in want][:4] or got[:6], want[:6]))
+                if rc != 0 or err.strip():
+                    problems.append("exit status %r, stderr %r" % (rc, err[-200:]))
+                if os.path.lexists(os.path.join(sb, victim)):
+                    problems.append("%r still exists" % victim)
+            if problems:
+                st.violate("sequence-differs", None, {"args": ["find"] + args, "pruned_and_removed": victim, "problems": problems}, rp)
+            common.force_rmtree(sb)
+    finally:
+        common.force_rmtree(base)
+    return st
+
+
 def order_worker(job):
     """Follow modes: the statement's ancestor/descendant order must hold for whatever is visited (oracle-free invariant)."""
     k, ntrees, seed = job
@@ -443,6 +496,7 @@ def run(ctx):
         ctx.stats.notes.append("mounting a tmpfs inside the sandbox is not permitted here: the -xdev workload was not run")
     else:
         ctx.require("runs_with_xdev", 20)
+    ctx.pmap(removing_prune_worker, [(k, ctx.scale(8, 800), ctx.seed) for k in range(nw)])
     ctx.pmap(bytes_order_worker, [(k, ctx.scale(12, 2000), ctx.seed) for k in range(nw)])
     ctx.require("non_utf8_sorted_runs", 20)
     ctx.require("follow_mode_sequences_with_link_loop", 3)
